@@ -177,6 +177,8 @@ def _run_core(world, plan):
     t0 = plan.get('t0', 0.01)  # interactions start after the connection is up
     for ia in plan.get('interactions', []):
         who = ia.get('by', 'client')
+        if ia.get('via_retry'):
+            continue  # issued by the application from inside another stream's on_error
 
         def starter(ia=ia, who=who):
             loop.call_after_hops(ia.get('hops', 0), app.start_interaction, world, who, ia)
